@@ -3,7 +3,8 @@ counting_set).
 Tie: generated contents (empty strings, quotes, backslashes, every control character, DEL, invalid and
 valid UTF-8, duplicates, shared prefixes, counts up to 2^64-1), communicator sizes 1..4 and 2x2, empty
 and pre-populated targets, inserts still pending when serialize is called, ranks that own nothing, empty
-containers; run on the real headers under simmpi.  Direct oracle: the reloaded container holds exactly
+containers, REUSED file prefixes (a different container - big, or tiny - serialized to the same prefix first,
+optionally with rank files planted beyond the communicator size); run on the real headers under simmpi.  Direct oracle: the reloaded container holds exactly
 what was inserted (as the container's kind defines it), rank by rank what the original held, nothing of
 the target's previous content, the same default value / round-robin cursor.  Correspondence: every
 rank's file parsed independently (field order contents, extra, communicator size), its raw string tokens
@@ -24,7 +25,9 @@ META = {
             "the prefix before the first NUL, so the round trip is the identity exactly for NUL-free strings); roundtrip_seq (bag), "
             "roundtrip_unique_keys (map, set, counting_set), roundtrip_multiset: deserialize (serialize c) = c on a communicator of the same size for "
             "every content incl. empty ranks, whatever the target held (target_irrelevant); roundtrip_multi (multimap: same elements with the same "
-            "multiplicities, sorted, same default value - runs of equal keys come back reversed); image_has_size / one_file_per_rank; includes_pending "
+            "multiplicities, sorted, same default value - runs of equal keys come back reversed); image_has_size / one_file_per_rank; serialize_overwrites_every_rank_file / serialize_forgets_previous_files / "
+            "roundtrip_reused_prefix (whatever the rank files of the prefix held before, after serialize file r is rank r's image - also for ranks "
+            "owning nothing - and deserialize loads exactly what it would load from a fresh prefix); includes_pending "
             "/ includes_pending_bag (serialize starts with a barrier: every pending operation destined to a rank is applied exactly once before that "
             "rank writes). The model is tied to the code by parsing every written file, comparing its string tokens with Ser.escape, the reloaded "
             "stores with Ser.cLoad + Ser.rebuild, and cereal's reader with Ser.cLoad on generated tokens.",
@@ -37,7 +40,8 @@ META = {
 }
 
 RULE = ("generated: a case = (kind, layout, #inserts per rank, flags, seed); flags choose pre-populated target, barrier or pending inserts before "
-        "serialize, only-rank-0 inserts (ranks owning nothing), non-empty default value, two-letter alphabet (duplicates, equal-key runs), NUL bytes; "
+        "serialize, only-rank-0 inserts (ranks owning nothing), non-empty default value, two-letter alphabet (duplicates, equal-key runs), NUL bytes, reused prefix (first a big or a tiny container X to the same prefix, then Y with "
+        "few keys on rank 0 only / empty / big; files also planted at rank indices size..2*size-1 and one unparsable file beyond); "
         "strings mix printable, control (1..31), quote/backslash/slash, bytes >= 0x80 and a table of special strings; non-trivial = at least one "
         "string token needing an escape or a non-ASCII byte, or an equal-key run, or a rank owning nothing; reader: generated JSON string tokens")
 
@@ -73,6 +77,18 @@ def gen_cases(tier, seed):
                     n = rnd.choice([0, 1, 3]) if rnd.random() < 0.25 else rnd.choice([8, 20, 45])
                     cases.append({"kind": kind, "nodes": nodes, "ppn": ppn, "n": n, "flags": flags, "seed": rnd.randrange(1, 10 ** 9),
                                   "sim_seed": rnd.randrange(1, 10 ** 6), "routing": rnd.choice(["NONE", "NR", "NLNR"]), "buffer_kb": rnd.choice([None, None, 1, 0])})
+    # reused prefix: X serialized to the prefix first, then a different Y (few keys on rank 0 only / empty / big after tiny),
+    # optionally with files planted at rank indices beyond the communicator; fresh and pre-populated targets
+    for rep in range(1 if tier == "quick" else 12):
+        for kind in KINDS:
+            for (n, fl) in ((rnd.choice([1, 2]), 8), (0, 0), (rnd.choice([1, 3]), 8 | 256), (0, 256), (20, 512), (rnd.choice([2, 25]), 512 | 256 | 8)):
+                nodes, ppn = rnd.choice(LAYOUTS[1:])
+                cases.append({"kind": kind, "nodes": nodes, "ppn": ppn, "n": n, "flags": 128 | fl | rnd.choice([0, 1]) | rnd.choice([0, 2]) | rnd.choice([0, 32]),
+                              "seed": rnd.randrange(1, 10 ** 9), "sim_seed": rnd.randrange(1, 10 ** 6), "routing": rnd.choice(["NONE", "NR", "NLNR"]),
+                              "buffer_kb": rnd.choice([None, 1, 0])})
+    # directed: 4 ranks, big set first, then one key (the scenario of the stale-file change), and the same on one rank with an empty set
+    cases.append({"kind": "set", "nodes": 1, "ppn": 4, "n": 1, "flags": 128 | 8, "seed": 7, "sim_seed": 1})
+    cases.append({"kind": "multiset", "nodes": 2, "ppn": 2, "n": 0, "flags": 128 | 1, "seed": 8, "sim_seed": 1})
     # strings with NUL bytes, kept apart so that their failures cannot mask anything else; first the minimal directed one
     cases.insert(0, {"kind": "set", "nodes": 1, "ppn": 1, "n": 2, "flags": 4 | 64, "seed": 1, "sim_seed": 1})
     for kind in (KINDS if tier != "quick" else ["map", "set", "bag"]):
@@ -187,10 +203,31 @@ def check_case(res, case, sr, model_ok):
     feats = set()
     has_nul = any(b"\0" in k or (isinstance(v, bytes) and b"\0" in v) for (k, v) in expect)
 
+    # state of every rank's file right after serialize: ok / missing / unparsable
+    fstat = {}
+    for r, d in enumerate(per):
+        if d["file"] is None:
+            fstat[r] = "missing"
+        else:
+            try:
+                independent_parse(d["file"])
+                fstat[r] = "ok"
+            except Exception:   # noqa: BLE001
+                fstat[r] = "unparsable"
+    badfiles = {r: st for r, st in fstat.items() if st != "ok"}
+    stale_back = sorted(r for r, d in enumerate(per) if any(k.startswith(b"stale-") for (k, _) in d["b"]))
+
     def fail(what, sig, **kw):
         if has_nul:
             # is the difference exactly the NUL truncation the model predicts?
             sig = "c20-nul-truncation" if nul_explains else sig + "-with-nul"
+        elif stale_back and sig.startswith("c20-reload"):
+            sig = "c20-stale-rank-file"
+            what += f"; ranks {stale_back} reloaded keys of the container serialized to this prefix EARLIER (their file was not overwritten)"
+        elif badfiles and sig.startswith("c20-reload"):
+            sig += "-rank-file-" + sorted(set(badfiles.values()))[0]
+        if badfiles:
+            kw["rank_files"] = badfiles
         res.oracle_failures.append({"what": what, "signature": sig, "case": dict(cs, **kw)})
 
     # does "cut every string at its first NUL, then rebuild" explain the reloaded content?  (computed from the ORIGINAL dumps)
@@ -244,7 +281,8 @@ def check_case(res, case, sr, model_ok):
     for r, d in enumerate(per):
         data = d["file"]
         if data is None:
-            res.corr_failures.append({"relation": "one file per rank", "what": f"rank {r} wrote no file", "case": dict(cs, rank=r)})
+            res.corr_failures.append({"relation": "serialize writes every rank's file (Ser.writeAll: one image per rank)", "what": f"rank {r} has no file after serialize",
+                                      "case": dict(cs, rank=r)})
             continue
         # (K1) independent parse: field order and values
         try:
@@ -338,14 +376,17 @@ def check_case(res, case, sr, model_ok):
                 extra = "5" if (kind == "mapcount" and case["flags"] & 16) else "0"
             else:
                 extra = "unit"
-            rq.append("rt %s %d %s %s" % (DISC[kind], ranks, extra, " ".join(elems)))
+            if case["flags"] & 128:   # reused prefix: through Ser.writeAll / Ser.readAll over a prefix full of stale images
+                rq.append("rtfs %s %d %d %s %s" % (DISC[kind], ranks, r, extra, " ".join(elems)))
+            else:
+                rq.append("rt %s %d %s %s" % (DISC[kind], ranks, extra, " ".join(elems)))
         outs = C.model("ser", rq)
         for r, (d, o) in enumerate(zip(per, outs)):
             w = o.split()
             pred = w[2:]
             real = [show_elem(e) for e in d["b"]]
             if pred != real:
-                res.corr_failures.append({"relation": "reloaded store (iteration order) == Ser.deserializeRank (Ser.serializeRank ..) with Ser.cLoad strings",
+                res.corr_failures.append({"relation": "reloaded store (iteration order) == Ser.deserializeRank (Ser.serializeRank ..) / Ser.readAll (Ser.writeAll stale ..) with Ser.cLoad strings",
                                           "what": f"rank {r}", "case": dict(cs, rank=r, model=pred[:6], real=real[:6])})
             if kind in ("map", "multimap") and d["extra"] != w[1]:
                 res.corr_failures.append({"relation": "default value after reload == image.extra", "what": f"rank {r}: real {d['extra']}, model {w[1]}",
@@ -357,6 +398,11 @@ def check_case(res, case, sr, model_ok):
     res.count("routing=%s" % case.get("routing", "NONE"))
     res.count("comm-buffer-kb=%s" % case.get("buffer_kb"))
     res.count("target-prepopulated" if case["flags"] & 1 else "target-empty")
+    if case["flags"] & 128:
+        res.count("reused-prefix")
+        feats.add("reused-prefix" + ("+planted-higher-ranks" if case["flags"] & 256 else "") + ("+tiny-first" if case["flags"] & 512 else ""))
+        if not expect:
+            feats.add("empty-after-nonempty")
     for f in feats:
         res.count(f)
     if feats:
